@@ -306,6 +306,12 @@ class Timeline:
         # Copy self.tracks because removing from it whilst using it = bad idea
         #--------------------------------------------------------------------------------
         for track in self.tracks[:]:
+            if track not in self.tracks:
+                #--------------------------------------------------------------------------------
+                # The track was unscheduled by an earlier track's event during this tick:
+                # it must not play (its pending notes have been handed to the timeline).
+                #--------------------------------------------------------------------------------
+                continue
             try:
                 track.tick()
             except Exception as e:
@@ -315,11 +321,12 @@ class Timeline:
                     # TODO: Possibly don't remove tracks specifically for the case in which SignalFlow
                     # throws a CPU exception? Generally, tracks should be stopped to prevent runaway repeats
                     # of errors.
-                    self.tracks.remove(track)
+                    if track in self.tracks:
+                        self.tracks.remove(track)
                     self._release_pending_notes(track)
                 else:
                     raise
-            if track.is_finished and track.remove_when_done:
+            if track.is_finished and track.remove_when_done and track in self.tracks:
                 self.tracks.remove(track)
                 log.info("Timeline: Track finished, removing from scheduler (total tracks: %d)" % len(self.tracks))
 
